@@ -1970,8 +1970,9 @@ class SelectTypes(Algo):
 
     def __init__(self, include_types=(bt.core.Node,), exclude_types=()):
         super(SelectTypes, self).__init__()
-        self.include_types = include_types
-        self.exclude_types = exclude_types or (type(None),)
+        # isinstance needs tuples; the arguments are documented as lists
+        self.include_types = tuple(include_types)
+        self.exclude_types = tuple(exclude_types) or (type(None),)
 
     def __call__(self, target):
         selected = [sec_name for sec_name, sec in target.children.items() if isinstance(sec, self.include_types) and not isinstance(sec, self.exclude_types)]
